@@ -123,11 +123,13 @@ pub struct ListenerCfg {
     pub secret: Option<Vec<u8>>,
     pub max_packet_length: i32,
     pub auth_cookie_expiry: u64,
+    /// this many distinct (idle) addresses are already tracked by the limiter when the listener starts
+    pub limiter_prefill: usize,
 }
 
 impl Default for ListenerCfg {
     fn default() -> Self {
-        Self { proxy: None, limiter: None, timeout: Duration::from_secs(10), secret: None, max_packet_length: 10_000, auth_cookie_expiry: 21_600 }
+        Self { proxy: None, limiter: None, timeout: Duration::from_secs(10), secret: None, max_packet_length: 10_000, auth_cookie_expiry: 21_600, limiter_prefill: 0 }
     }
 }
 
@@ -157,7 +159,13 @@ pub fn start_listener(cfg: &ListenerCfg, script: NetScript, workers: usize) -> R
             let rt = tokio::runtime::Builder::new_multi_thread().worker_threads(workers.max(1)).enable_all().build().expect("rt");
             rt.block_on(async move {
                 let mut listener = Listener::new(ad2.clone(), ad2.clone(), ad2.clone(), ad2.clone(), ad2.clone(), ad2.clone())
-                    .with_rate_limiter(cfg2.limiter.map(|(d, l)| RateLimiter::<IpAddr>::new(d, l)))
+                    .with_rate_limiter(cfg2.limiter.map(|(d, l)| {
+                        let mut rl = RateLimiter::<IpAddr>::new(d, l);
+                        for i in 0..cfg2.limiter_prefill {
+                            rl.enqueue(IpAddr::V6(std::net::Ipv6Addr::from(0x2001_0db8_0000_0000_0000_0000_0000_0000u128 + i as u128)));
+                        }
+                        rl
+                    }))
                     .with_proxy_protocol(cfg2.proxy.map(|(v1, v2)| ParseConfig { include_tlvs: false, allow_v1: v1, allow_v2: v2 }))
                     .with_connection_timeout(cfg2.timeout)
                     .with_auth_secret(cfg2.secret.clone())
